@@ -82,9 +82,16 @@ impl Topo {
 
 /// spec: AS i (i < n_core: core) in isd[i]; parents[i] subset of earlier ASes; peers pairs
 pub fn topo_from_spec(rng: &mut Rng, n_core: usize, isd: &[u64], parents: &[Vec<usize>], peers: &[(usize, usize)], tag: &str) -> Topo {
+    let asn: Vec<u64> = (0..isd.len()).map(|i| 0x10 + i as u64).collect();
+    topo_from_spec_asn(rng, n_core, isd, &asn, parents, peers, tag)
+}
+
+/// as `topo_from_spec`, with the AS NUMBER of every AS chosen by the caller: numbers may repeat
+/// across ISDs (an AS is identified by ISD-AS, never by its number alone)
+pub fn topo_from_spec_asn(rng: &mut Rng, n_core: usize, isd: &[u64], asn: &[u64], parents: &[Vec<usize>], peers: &[(usize, usize)], tag: &str) -> Topo {
     let n = isd.len();
     let mut t = Topo { tag: tag.into(), ..Default::default() };
-    let ias: Vec<u64> = (0..n).map(|i| ia(isd[i], 0x10 + i as u64)).collect();
+    let ias: Vec<u64> = (0..n).map(|i| ia(isd[i], asn[i])).collect();
     for i in 0..n { t.add_as(rng, ias[i], i < n_core); }
     for i in 0..n_core { for j in (i + 1)..n_core { t.add_link(rng, ias[i], 3, ias[j]); } }
     for i in n_core..n {
@@ -94,6 +101,30 @@ pub fn topo_from_spec(rng: &mut Rng, n_core: usize, isd: &[u64], parents: &[Vec<
     }
     for &(x, y) in peers { if x != y { t.add_link(rng, ias[x], 0, ias[y]); } }
     t
+}
+
+/// AS numbers that restart in every ISD (so they repeat across ISDs): the k-th AS of an ISD gets
+/// number `base + k`
+pub fn per_isd_asns(isd: &[u64], base: u64) -> Vec<u64> {
+    let mut cnt = std::collections::BTreeMap::new();
+    isd.iter().map(|i| { let c = cnt.entry(*i).or_insert(0u64); *c += 1; base + *c - 1 }).collect()
+}
+
+/// multi-ISD topologies in which AS NUMBERS repeat across ISDs
+pub fn repeat_topos(rng: &mut Rng) -> Vec<Topo> {
+    let mut v = vec![];
+    // same number as core in both ISDs and as leaf in both: 1-2 -> 1-1 -> 2-1 -> 2-2
+    v.push(topo_from_spec_asn(rng, 2, &[1, 2, 1, 2], &[1, 1, 2, 2], &[vec![], vec![], vec![0], vec![1]], &[], "rep_chain"));
+    // a number that is a leaf in one ISD and the core of the other: 1-2 -> 1-1 -> 2-2 -> 2-1
+    v.push(topo_from_spec_asn(rng, 2, &[1, 2, 1, 2], &[1, 2, 2, 1], &[vec![], vec![], vec![0], vec![1]], &[], "rep_leafcore"));
+    // three ISDs, every core has number 1, every leaf number 5, one grandchild 1-1 <- 1-5 <- 1-7 / 3-7 <- 3-5
+    v.push(topo_from_spec_asn(rng, 3, &[1, 2, 3, 1, 2, 3, 1, 3], &[1, 1, 1, 5, 5, 5, 7, 7],
+        &[vec![], vec![], vec![], vec![0], vec![1], vec![2], vec![3], vec![5]], &[], "rep_threeisd"));
+    // two cores per ISD with the same numbers in both ISDs, leaves repeat too, a peering link
+    // between the two equally numbered leaves
+    v.push(topo_from_spec_asn(rng, 4, &[1, 1, 2, 2, 1, 2, 1, 2], &[1, 2, 1, 2, 3, 3, 4, 4],
+        &[vec![], vec![], vec![], vec![], vec![0], vec![2], vec![1, 4], vec![3]], &[(4, 5)], "rep_twocores_peer"));
+    v
 }
 
 pub fn directed_topos(rng: &mut Rng) -> Vec<Topo> {
@@ -116,6 +147,8 @@ pub fn directed_topos(rng: &mut Rng) -> Vec<Topo> {
     v.push(topo_from_spec(rng, 1, &[1, 1, 1, 1, 1], &[vec![], vec![0], vec![1], vec![2], vec![3]], &[], "chain5"));
     // several cores per ISD, every non-core AS under one core only (plan rows up_core / core_down)
     v.extend(plan_topos(rng).into_iter().take(2));
+    // AS numbers repeated across ISDs
+    v.extend(repeat_topos(rng));
     v
 }
 
@@ -164,7 +197,11 @@ pub fn enumerate_small(rng: &mut Rng, count: usize) -> Vec<Topo> {
             let y = rng.range(0, n as u64 - 1) as usize;
             if x != y { peers.push((x, y)); }
         }
-        v.push(topo_from_spec(rng, n_core, &isd, &parents, &peers, &format!("small{k}")));
+        if two_isd && rng.chance(1, 2) {
+            v.push(topo_from_spec_asn(rng, n_core, &isd, &per_isd_asns(&isd, 1), &parents, &peers, &format!("small{k}r")));
+        } else {
+            v.push(topo_from_spec(rng, n_core, &isd, &parents, &peers, &format!("small{k}")));
+        }
     }
     v
 }
@@ -188,6 +225,9 @@ pub fn random_topo(rng: &mut Rng, max_as: usize) -> Topo {
         let x = rng.range(0, n as u64 - 1) as usize;
         let y = rng.range(0, n as u64 - 1) as usize;
         if x != y { peers.push((x, y)); }
+    }
+    if two && rng.chance(1, 2) {
+        return topo_from_spec_asn(rng, n_core, &isd, &per_isd_asns(&isd, 1), &parents, &peers, "random_rep");
     }
     topo_from_spec(rng, n_core, &isd, &parents, &peers, "random")
 }
@@ -285,6 +325,70 @@ impl Pkt {
     }
 }
 
+// ------------------------------------------------------------------ minting authentic paths
+/// ExpTime values of the lifetime dimension (plus random ones)
+pub const EXP_VALUES: [u8; 7] = [0, 1, 2, 63, 127, 254, 255];
+
+/// last second of a hop field's lifetime, SPECIFICATION formula: ts + floor((ExpTime + 1) * 337.5 s)
+pub fn spec_expiry(ts: u32, exp: u8) -> u64 { ts as u64 + ((exp as u64 + 1) * 675) / 2 }
+
+impl Topo {
+    /// the other end of the link at interface `ifid` of AS `x`
+    pub fn partner(&self, x: u64, ifid: u16) -> Option<(u64, u16)> {
+        self.links.iter().find_map(|l| if l.a == x && l.aif == ifid { Some((l.b, l.bif)) } else if l.b == x && l.bif == ifid { Some((l.a, l.aif)) } else { None })
+    }
+    /// the AS every hop field of `p` (a path without peering, starting at `p.src`) belongs to
+    pub fn owners(&self, p: &Pkt) -> Option<Vec<u64>> {
+        let mut cur = p.src;
+        let mut v = vec![];
+        let mut j = 0usize;
+        for (s, l) in p.lens.iter().enumerate() {
+            let cons = p.infos[s].flags & 1 != 0;
+            for k in 0..*l as usize {
+                v.push(cur);
+                if k + 1 < *l as usize {
+                    let h = &p.hops[j];
+                    let eg = if cons { h.ceg } else { h.cin };
+                    cur = self.partner(cur, eg)?.0;
+                }
+                j += 1;
+            }
+        }
+        Some(v)
+    }
+    /// `p` (no peering) minted anew: segment s gets timestamp `ts[s]` and initial SegID
+    /// `beta0[s]`, hop j gets ExpTime `exp[j]`; MACs chained in construction direction with
+    /// the forwarding keys of the owning ASes
+    pub fn mint(&self, p: &Pkt, ts: &[u32], beta0: &[u16], exp: &[u8]) -> Option<Pkt> {
+        use sciparse::dataplane_path::standard::mac::algo::calculate_hop_mac;
+        if p.uses_peering() || p.onehop { return None; }
+        let owners = self.owners(p)?;
+        let mut q = p.clone();
+        let mut start = 0usize;
+        for (s, l) in p.lens.iter().enumerate() {
+            let l = *l as usize;
+            let cons = p.infos[s].flags & 1 != 0;
+            let idx: Vec<usize> = if cons { (start..start + l).collect() } else { (start..start + l).rev().collect() };
+            let mut beta = beta0[s];
+            let mut beta_last = beta;
+            for j in idx {
+                let key = self.ases.iter().find(|a| a.ia == owners[j])?.key;
+                let h = &mut q.hops[j];
+                h.exp = exp[j];
+                h.mac = calculate_hop_mac(beta, ts[s], h.exp, h.cin, h.ceg, &key);
+                beta_last = beta;
+                beta ^= u16::from_be_bytes([h.mac[0], h.mac[1]]);
+            }
+            q.infos[s].ts = ts[s];
+            // against construction direction the packet starts with the SegID of the hop field
+            // constructed last (the sender's own; no ingress update happens there)
+            q.infos[s].segid = if cons { beta0[s] } else { beta_last };
+            start += l;
+        }
+        Some(q)
+    }
+}
+
 pub fn path_model(p: &ScionPath) -> Option<StandardPath> {
     match p.dp_path() { ScionDpPathView::Standard(v) => Some(v.to_model()), _ => None }
 }
@@ -362,7 +466,7 @@ impl Case {
             self.out.end, fin)
     }
     pub fn kind_name(&self) -> String {
-        match self.kind { 0 => "offered".into(), 1 => "reverse".into(), 3 => format!("onehop.{}", self.what.split(' ').nth(1).unwrap_or("")), _ => format!("mut.{}", self.what.split(' ').next().unwrap_or("")) }
+        match self.kind { 0 => "offered".into(), 1 => "reverse".into(), 7 => "lifetime".into(), 3 => format!("onehop.{}", self.what.split(' ').nth(1).unwrap_or("")), _ => format!("mut.{}", self.what.split(' ').next().unwrap_or("")) }
     }
     pub fn end_name(&self) -> String {
         if self.out.end != 0 { return format!("abnormal{}", self.out.end); }
@@ -426,7 +530,7 @@ impl World {
         rng.shuffle(&mut order);
         // shapes first: make sure multi-segment / peering / long paths are not starved
         order.sort_by_key(|&i| std::cmp::Reverse((self.paths[i].2.uses_peering() as usize, self.paths[i].2.lens.len())));
-        let base_budget = if mode == "c01" { budget } else { budget / 2 };
+        let base_budget = if mode == "c01" { budget } else { budget * 3 / 8 };
         let mut k = 0usize;
         while out.len() + 1 < base_budget.max(2) && k < order.len() {
             // alternate between the shape-sorted front and a random pick
@@ -449,6 +553,62 @@ impl World {
             }
         }
         if mode == "c01" { return out; }
+        // directed: hop field lifetime.  An offered path minted anew with a different timestamp
+        // per segment and ExpTime values from EXP_VALUES (and random ones); the clock at the last
+        // second of the path's lifetime, one before and one after -- by the SPECIFICATION formula
+        // (spec_expiry) -- and around the youngest segment timestamp
+        if mode != "c01" {
+            let plain: Vec<usize> = (0..self.paths.len()).filter(|&i| !self.paths[i].2.uses_peering()).collect();
+            let want = (budget / 4).max(3);
+            let mut made = 0usize;
+            let mut tries = 0usize;
+            while !plain.is_empty() && made < want && out.len() < budget && tries < 12 {
+                tries += 1;
+                // longer paths first
+                let i = if tries == 1 { *plain.iter().max_by_key(|&&i| (self.paths[i].2.lens.len(), self.paths[i].2.hops.len())).unwrap() } else { *rng.pick(&plain) };
+                let (s, d, base, _) = &self.paths[i];
+                // the recipe is right iff it reproduces the control plane's own MACs
+                let beta_orig: Vec<u16> = {
+                    let mut v = vec![]; let mut st = 0usize;
+                    for (k, l) in base.lens.iter().enumerate() {
+                        let l = *l as usize;
+                        let mut b = base.infos[k].segid;
+                        if base.infos[k].flags & 1 == 0 { for h in &base.hops[st + 1..st + l] { b ^= u16::from_be_bytes([h.mac[0], h.mac[1]]); } }
+                        v.push(b); st += l;
+                    }
+                    v
+                };
+                let ts_orig: Vec<u32> = base.infos.iter().map(|x| x.ts).collect();
+                let exp_orig: Vec<u8> = base.hops.iter().map(|h| h.exp).collect();
+                match self.topo.mint(base, &ts_orig, &beta_orig, &exp_orig) {
+                    Some(q) if q == *base => {}
+                    other => { if std::env::var("NETDBG").is_ok() { eprintln!("DIFF topo={} base={} owners={:?} minted={:?}", self.topo.tag, base.human(), self.topo.owners(base), other.map(|q| q.human())); } sum.count("lifetime.mint_recipe_differs"); continue; }
+                }
+                let e = if rng.chance(1, 8) { rng.below(256) as u8 } else { EXP_VALUES[(rng.below(7)) as usize] };
+                let n = base.hops.len();
+                // every hop lives at least e; some live longer
+                let mut exp: Vec<u8> = (0..n).map(|_| if rng.chance(1, 2) { e } else { e.saturating_add(rng.below(40) as u8) }).collect();
+                let jmin = rng.below(n as u64) as usize; exp[jmin] = e;
+                // distinct timestamps, at most 300 s apart (shorter than the shortest lifetime)
+                let mut ts: Vec<u32> = vec![];
+                for _ in 0..base.lens.len() { loop { let t = self.ts - rng.below(301) as u32; if !ts.contains(&t) { ts.push(t); break; } } }
+                let beta0: Vec<u16> = (0..base.lens.len()).map(|_| rng.below(65536) as u16).collect();
+                let Some(q) = self.topo.mint(base, &ts, &beta0, &exp) else { continue };
+                let mut t_end = u64::MAX; let mut st = 0usize;
+                for (k, l) in q.lens.iter().enumerate() { for h in &q.hops[st..st + *l as usize] { t_end = t_end.min(spec_expiry(ts[k], h.exp)); } st += *l as usize; }
+                let t_max = *ts.iter().max().unwrap() as u64;
+                let mut clocks: Vec<(u64, &str)> = vec![(t_end - 1, "expiry-1"), (t_end, "expiry"), (t_end + 1, "expiry+1")];
+                if rng.chance(1, 3) { clocks.push((t_max - 1, "youngest_ts-1")); clocks.push((t_max, "youngest_ts")); }
+                for (clk, nm) in clocks {
+                    if out.len() >= budget { break; }
+                    let c = self.case(&self.topo, &self.real, clk as u32, *s, 0, q.clone(), 7, format!("lifetime exp={e} clock={nm} ts={:?} exps={:?}", ts, exp), vec![]);
+                    if c.out.end == 4 { continue; }
+                    sum.count(&format!("lifetime.exp{}", if EXP_VALUES.contains(&e) { e.to_string() } else { "rand".into() }));
+                    sum.count(&format!("lifetime.clock.{nm}.{}", if c.out.end == 0 && matches!(c.out.trace.last(), Some((a, _, 2, _)) if a == d) { "delivered" } else { "refused" }));
+                    out.push(c); made += 1;
+                }
+            }
+        }
         // directed: a peering hop field moved behind a segment change (finding
         // C13-peer-link-segment-change): up-segment hop fields [leaf, X regular] as segment 0,
         // [X peering hop, Y peering hop] as segment 1, both against construction direction
